@@ -352,6 +352,16 @@ func c11Rules(c *Ctx) {
 	add("decorator-argument-list", "services:\n  svc:\n    value: \"V\"\ndecorators:\n  - tag: \"t\"\n    decorator: \"Dec\"\n    arguments: [[1]]\n", false)
 	add("primitive-arguments", "services:\n  svc:\n    constructor: \"New\"\n    arguments: [1, -2, 1.5, true, ~, \"s\", 18446744073709551615]\n", true)
 	add("todo-exempt", "services:\n  svc:\n    todo: true\n    getter: \"1 bad\"\n    type: \"?\"\n    value: \"(\"\n    constructor: \")\"\n    arguments: [[1]]\n    tags: [\"bad tag\", \"bad tag\"]\n    fields: {\"1\": [1]}\n", true)
+	// todo twins: every attribute rule is switched off for a todo service, also rules that compare services with each other
+	add("todo-exempt:same-getter-as-real-service", "services:\n  real:\n    value: \"V\"\n    getter: \"GetIt\"\n  later:\n    todo: true\n    getter: \"GetIt\"\n", true)
+	add("todo-exempt:same-getter-on-two-todo-services", "services:\n  a:\n    todo: true\n    getter: \"GetIt\"\n  b:\n    todo: true\n    getter: \"GetIt\"\n  c:\n    value: \"V\"\n", true)
+	add("todo-exempt:reserved-getter", "services:\n  svc:\n    todo: true\n    getter: \"GetParam\"\n", true)
+	add("todo-exempt:must-prefix-getter", "services:\n  svc:\n    todo: true\n    getter: \"MustGetInContext\"\n", true)
+	add("todo-exempt:must-getter-without-getter", "services:\n  svc:\n    todo: true\n    must_getter: true\n", true)
+	add("todo-exempt:constructor-and-value", "services:\n  svc:\n    todo: true\n    constructor: \"New\"\n    value: \"V\"\n", true)
+	add("todo-exempt:arguments-without-constructor", "services:\n  svc:\n    todo: true\n    arguments: [1, \"@nope\", \"%unclosed\"]\n", true)
+	add("todo-exempt:invalid-call-and-field", "services:\n  svc:\n    todo: true\n    calls: [[\"bad-method\", [[1]]]]\n    fields: {\"bad-field\": [1]}\n", true)
+	add("todo-exempt:nothing-else", "services:\n  svc:\n    todo: true\n", true)
 	add("todo-false-not-exempt", "services:\n  svc:\n    todo: false\n    getter: \"1 bad\"\n    value: \"V\"\n", false, "svc")
 	add("todo-name-still-checked", "services:\n  \"bad name\":\n    todo: true\n", false, "bad name")
 	add("getter-must-prefix", "services:\n  svc:\n    value: \"V\"\n    getter: \"MustGet\"\n", false, "svc")
